@@ -22,6 +22,7 @@ SealedAlerts(t) == SelectSeq(t.sub, LAMBDA x : x.k = "S" /\ x.t = "21")
 \* the fatal alert a dying verifier sends is the one the model died with (when one was sealed in this call)
 AlertShown(t, a) == \A i \in 1..Len(SealedAlerts(t)) : SealedAlerts(t)[i].n = 2 => SealedAlerts(t)[i].x = a
 
+Lenient(t) == "fault" \in DOMAIN t.sc /\ t.sc.fault = 1
 ScOf(t) == [role |-> t.sc.role, cb |-> t.sc.cb, cred |-> t.sc.cred, pop |-> t.sc.pop, carrier |-> t.sc.carrier]
 
 TAuth ==
@@ -35,16 +36,29 @@ TAuth ==
           \* no relevant message, or a fragment of one (DTLS) that neither completed it nor ended the session
           /\ IF Len(rel) = 0 \/ (~Accepted(t, rel[1].t) /\ t.err = 0) THEN cbs = <<>> /\ v' = v
              ELSE LET e == rel[1]
-                      cands == IF e.t = "CERTIFICATE" THEN CertNext(sc, v)
-                               ELSE IF e.t = sc.carrier THEN PopNext(sc, v)
-                               ELSE FinNext(sc, v)
+                      cands0 == IF e.t = "CERTIFICATE" THEN CertNext(sc, v)
+                                ELSE IF e.t = sc.carrier THEN PopNext(sc, v)
+                                ELSE FinNext(sc, v)
+                      \* C19 runs: an allocation failed somewhere in this episode - any step may also end the handshake
+                      \* (MxAuth!Abort); what it may never do is let it go on with less than the model demands
+                      \* (the failure reported may then be another one than the scenario's - e.g. unknown_ca because the
+                      \* trust anchors could not be loaded - but a permissive callback still has to be told a failure)
+                      lenientAccept == IF e.t = "CERTIFICATE" /\ v.phase = "cert" /\ sc.cred \in SoftCred /\ sc.cb = "perm"
+                                          /\ cbs # <<>> /\ cbs[Len(cbs)] # 0
+                                       THEN {[v EXCEPT !.phase = "pop", !.cbArgs = @ \o cbs, !.accepted = sc.cred]} ELSE {}
+                      cands == IF Lenient(t) THEN cands0 \cup {Dead([v EXCEPT !.cbArgs = @ \o cbs], a) : a \in AnyAlert} \cup lenientAccept ELSE cands0
                       ok == {w \in cands : /\ Accepted(t, e.t) = (w.phase # "dead")
                                            /\ w.cbArgs = v.cbArgs \o cbs
                                            /\ w.phase = "dead" => AlertShown(t, w.alert)}
                   IN ok # {} /\ v' = CHOOSE w \in ok : TRUE
           /\ t.hc = 1 => v'.phase = "done"                       \* C04: complete only through the three steps
-          /\ (t.ev = "state" /\ sc.cred \in GoodCred /\ sc.pop = "ok") => t.hc = 1    \* sanity: an honest peer is accepted
-          /\ AuthBeforeComplete(sc, v') /\ NoCallbackMeansFatal(sc, v') /\ NeverToldNoFailure(sc, v')
+          /\ (t.ev = "state" /\ sc.cred \in GoodCred /\ sc.pop = "ok" /\ ~Lenient(t)) => t.hc = 1    \* sanity: an honest peer is accepted
+          /\ IF Lenient(t)
+             THEN v'.phase = "done" => /\ sc.pop = "ok"
+                                       /\ \/ sc.cred \in GoodCred
+                                          \/ sc.cb = "perm" /\ v'.accepted = sc.cred /\ Len(v'.cbArgs) > 0 /\ v'.cbArgs[Len(v'.cbArgs)] # 0
+             ELSE AuthBeforeComplete(sc, v')
+          /\ NoCallbackMeansFatal(sc, v') /\ NeverToldNoFailure(sc, v')
     /\ l' = l + 1
 
 TNew ==
